@@ -69,9 +69,9 @@ func (d *Data) getJSONSchema(ctx storage.VersionedCtx) (sch *jsonschema.Schema, 
 		return nil, fmt.Errorf("no JSON Schema available")
 	}
 	if ctx.Head() {
-		d.metadataMu.RLock()
+		d.metadataMu.Lock()
 		d.metadata[JSONSchema] = byteVal
-		d.metadataMu.RUnlock()
+		d.metadataMu.Unlock()
 	}
 
 	sch, err = jsonschema.CompileString("schema.json", string(byteVal))
